@@ -3,6 +3,12 @@ from vfam import *  # noqa
 
 THEOREMS = ["C11_facts", "C11_value_len", "C11_bounds", "C11_fixed_exact", "C11_value_len_any"]
 PARTIAL = ["the whole statement is proved for the model (facts = spec facts for every type; reported length = |encoding| = |spec encoding|, within bounds, = fixed size, for every constructed value and for every representation of a value, i.e. also after decoding / import / mutation: C11_value_len_any); the Python value_byte_length() / type-level classmethods are tied by the correspondence"]
+# second tie: the size-fact methods of the type classes (is_fixed_byte_length / min_byte_length / max_byte_length /
+# type_byte_length of List, Vector and its fixed-size override, Container, Bitlist, Bitvector, ByteList, Union, the fixed-length
+# helper, boolean, uintN) are TRANSLATED on every run (harness/translate_facts.py, fail-closed) and, composed along the class
+# hierarchy, proved equal to the model's is_fixed_impl / min_impl / max_impl for every type (coq/trans/FactsEq.v)
+TRANSLATED = {"translator": "translate_facts", "source": "remerkleable", "gen": "FactsGen.v", "proofs": "FactsEq.v",
+              "theorems": ["eq_basic_sizes", "eq_facts", "eq_container_type_byte_length"]}
 COQ_IMPORTS = ["RM.Types", "RMR.RunV"]
 COQ_FN = "RunV.run_c11"
 COQ_CASE_TY = "(ty * val)"
